@@ -74,7 +74,7 @@ def remap(t, sub):
 
 
 def gen(tier, rng):
-    n = 70 if tier == 'quick' else 1500
+    n = 60 if tier == 'quick' else 1500
     return [gen_case(rng) for _ in range(n)]
 
 
